@@ -1111,6 +1111,25 @@ func rangeIter(r *Run, x value, t types.Type) iter {
 		return x.rangeIter(r)
 	case string:
 		return &stringIter{Reader: strings.NewReader(x)}
+	case symBytesStr:
+		// range over a string with symbolic bytes: byte-wise, which equals rune-wise for ASCII; every
+		// symbolic byte must provably be < 0x80 on this path (stated bound of the harness)
+		it := &symBytesIter{r: r}
+		for _, b := range x.b {
+			if sb, ok := b.(symInt); ok {
+				if !r.mustHold(r.tc.Lt(sb.t, r.tc.Int64(0x80))) {
+					panic(unsupported{"range over a string containing a possibly non-ASCII symbolic byte"})
+				}
+				it.runes = append(it.runes, r.mkSymInt(sb.t, types.Int32))
+			} else {
+				c := b.(byte)
+				if c >= 0x80 {
+					panic(unsupported{"range over a partly symbolic string with non-ASCII bytes"})
+				}
+				it.runes = append(it.runes, int32(c))
+			}
+		}
+		return it
 	}
 	panic(fmt.Sprintf("cannot range over %T", x))
 }
@@ -1544,4 +1563,19 @@ func fandbits[F floaty](x, y F) F {
 		*(*uint64)(unsafe.Pointer(&x)) &= *(*uint64)(unsafe.Pointer(&y))
 	}
 	return x
+}
+
+type symBytesIter struct {
+	r     *Run
+	runes []value
+	i     int
+}
+
+func (it *symBytesIter) next() tuple {
+	if it.i >= len(it.runes) {
+		return tuple{false, nil, nil}
+	}
+	v := tuple{true, it.i, it.runes[it.i]}
+	it.i++
+	return v
 }
